@@ -29,6 +29,10 @@ pub fn zero_ops() -> Vec<OpK> {
     vec![OpK::Add, OpK::Mul, OpK::Scale(0.0), OpK::Relu]
 }
 
+pub fn view_ops() -> Vec<OpK> {
+    vec![OpK::Reshape(vec![1, 3]), OpK::Reshape(vec![3]), OpK::Reshape(vec![3, 1]), OpK::Mul, OpK::Add, OpK::Div]
+}
+
 pub fn image_ops() -> Vec<OpK> {
     vec![OpK::Conv { sr: 1, sc: 1 }, OpK::Conv { sr: 1, sc: 3 }, OpK::Add, OpK::Mul, OpK::Relu, OpK::Sum(2), OpK::Sigmoid]
 }
@@ -55,6 +59,7 @@ pub fn full_ops() -> Vec<OpK> {
         OpK::Matmul { ta: true, tb: false, bias: false },
         OpK::Matmul { ta: true, tb: true, bias: false },
         OpK::Matmul { ta: false, tb: false, bias: true },
+        OpK::Matmul { ta: true, tb: false, bias: true },
         OpK::UMul,
         OpK::UAdd,
     ]
@@ -67,6 +72,7 @@ pub fn spaces(tier: Tier, var: u64) -> Vec<Space> {
             Space { name: "broadcast/full", leaves: broadcast_pool(var), ops: full_ops(), max_nodes: 2, masks: Some(vec![0b1111, 0b0001, 0b0110, 0b1010, 0b0101]), deviations_upto: 0 },
             Space { name: "same-shape/zero", leaves: same_shape_pool(var), ops: zero_ops(), max_nodes: 3, masks: Some(vec![0b111, 0b011, 0b101]), deviations_upto: 0 },
             Space { name: "image/conv", leaves: image_pool(var), ops: image_ops(), max_nodes: 2, masks: Some(vec![0b1111, 0b0110, 0b1001]), deviations_upto: 0 },
+            Space { name: "views/alias", leaves: view_pool(var), ops: view_ops(), max_nodes: 3, masks: None, deviations_upto: 0 },
         ],
         Tier::Thorough => vec![
             Space { name: "same-shape/core", leaves: same_shape_pool(var), ops: core_ops(), max_nodes: 4, masks: Some(vec![0b111, 0b011, 0b101, 0b110, 0b001]), deviations_upto: 0 },
@@ -74,6 +80,7 @@ pub fn spaces(tier: Tier, var: u64) -> Vec<Space> {
             Space { name: "broadcast/full", leaves: broadcast_pool(var), ops: full_ops(), max_nodes: 2, masks: None, deviations_upto: 0 },
             Space { name: "same-shape/zero", leaves: same_shape_pool(var), ops: zero_ops(), max_nodes: 3, masks: None, deviations_upto: 0 },
             Space { name: "image/conv", leaves: image_pool(var), ops: image_ops(), max_nodes: 3, masks: None, deviations_upto: 0 },
+            Space { name: "views/alias", leaves: view_pool(var), ops: view_ops(), max_nodes: 4, masks: None, deviations_upto: 0 },
         ],
     }
 }
